@@ -417,6 +417,7 @@ func c06Run(c c06Case) (res c06Result) {
 		rpcs        int
 		sinceLog    int // tip polls since the last FilterLogs
 		sweeps      int // detector sweeps since the last FilterLogs
+		sweepsTotal int // all finalized-block queries so far (every detector sweep makes one)
 		cancelFn    context.CancelFunc
 		restarted   bool
 		cancelledAt time.Time
@@ -449,6 +450,7 @@ func c06Run(c c06Case) (res c06Result) {
 			sinceLog++
 		case call.Method == "HeaderByNumber" && call.Tag == "finalized":
 			sweeps++
+			sweepsTotal++
 		}
 		return nil
 	}
@@ -560,6 +562,23 @@ func c06Run(c c06Case) (res c06Result) {
 		}
 		return true
 	}
+	// wedgedDetector: the detector queries the finalized block at the start of every sweep, once per millisecond; a running
+	// node whose detector has made no sweep for 10 s can no longer notice a reorg
+	wdSweeps, wdSince := -1, time.Now()
+	wedgedDetector := func() bool {
+		if down {
+			wdSweeps, wdSince = -1, time.Now()
+			return false
+		}
+		mu.Lock()
+		n := sweepsTotal
+		mu.Unlock()
+		if n != wdSweeps {
+			wdSweeps, wdSince = n, time.Now()
+			return false
+		}
+		return time.Since(wdSince) > 10*time.Second
+	}
 	waitIdle := func(max time.Duration) bool {
 		dl := time.Now().Add(max)
 		for time.Now().Before(dl) {
@@ -568,6 +587,10 @@ func c06Run(c c06Case) (res c06Result) {
 			}
 			if idle() {
 				return true
+			}
+			if wedgedDetector() {
+				res.verdict = "the node keeps running but its reorg detector has not made a sweep for 10 s: it is wedged and cannot notice any further reorg" + c06Diag(storePath, rdPath, chain)
+				return false
 			}
 			time.Sleep(300 * time.Microsecond)
 		}
@@ -608,7 +631,7 @@ func c06Run(c c06Case) (res c06Result) {
 		}
 		if isolated {
 			if !waitIdle(60 * time.Second) {
-				if res.inconcl == "" {
+				if res.inconcl == "" && res.verdict == "" {
 					res.inconcl = "node did not go idle before an isolated fork within 60s"
 				}
 				return
@@ -758,7 +781,7 @@ func c06Run(c c06Case) (res c06Result) {
 				sinceLog, sweeps = 0, 0
 				mu.Unlock()
 				if !waitIdle(60 * time.Second) {
-					if res.inconcl == "" {
+					if res.inconcl == "" && res.verdict == "" {
 						res.inconcl = "node did not go idle after an isolated fork within 60s"
 					}
 					return
@@ -830,6 +853,8 @@ func c06Run(c c06Case) (res c06Result) {
 	deadline := time.Now().Add(120 * time.Second)
 	var diff string
 	var idleSince time.Time
+	lastRPCs, lastRPCMove := -1, time.Now()
+	lastSweeps, lastSweepMove := -1, time.Now()
 	for {
 		if !pump() {
 			return
@@ -851,6 +876,23 @@ func c06Run(c c06Case) (res c06Result) {
 			}
 		} else {
 			idleSince = time.Time{}
+		}
+		mu.Lock()
+		nowRPCs, nowSweeps := rpcs, sweepsTotal
+		mu.Unlock()
+		if nowSweeps != lastSweeps {
+			lastSweeps, lastSweepMove = nowSweeps, time.Now()
+		} else if time.Since(lastSweepMove) > 10*time.Second {
+			// the detector queries the finalized block at the start of every sweep, once per millisecond
+			res.verdict = "the chain stopped changing and the node keeps polling the tip, but its reorg detector has not made a sweep for 10 s: it is wedged and cannot notice any further reorg" + c06Diag(storePath, rdPath, chain)
+			return
+		}
+		if nowRPCs != lastRPCs {
+			lastRPCs, lastRPCMove = nowRPCs, time.Now()
+		} else if time.Since(lastRPCMove) > 10*time.Second {
+			// a running node polls the tip and sweeps its tracked blocks every millisecond
+			res.verdict = "the chain stopped changing, but the node has not made a single RPC for 10 s (no tip poll, no detector sweep): it is wedged and cannot notice any further reorg" + c06Diag(storePath, rdPath, chain)
+			return
 		}
 		if time.Now().After(deadline) {
 			res.inconcl = "node did not become idle within 120s after the last fork"
